@@ -50,8 +50,11 @@ CLAIMS = {
          "range, and SourceSubString/pointerToTheErrorCharacter/String never to panic under the stated API precondition (caret position not "
          "inside leading blanks of a continuing line); the error-format table is evaluated to contain no %w/%v/%p verbs (no dumps of "
          "internal structures); regex and number entry points are proved to produce positioned errors inside the text or plain coded "
-         "errors. Not decided: the scanners' error sites (index inside the text at every SetIndex of the schema/enum/JSON scanners), errs.f "
-         "placeholder counts, readability of messages.",
+         "errors; every format string of a fmt call in the module is a program constant (static obligation per call site), so text quoted from "
+         "the input is never interpreted as a format; for the JSight schema scanner every panic raised by a state function, a closure or Next is "
+         "proved to be an error value, and if it is a positioned diagnostic its index lies inside the text (thin contract over all 62 state "
+         "functions). Not decided: which byte a scanner error points at, positions produced by the loader/compiler/checker (taken from lexemes), "
+         "errs.f placeholder counts, readability of messages.",
          "5 C16", "weakest-precondition VCs over go/ssa + SMT; constant evaluation of the format table"),
  "C04": ("Numeric rule values are proved never to wrap: Bytes.ParseUint/ParseInt return the exact decimal value or an error (no-wrap "
          "obligations on u*10+d), so NewMinLength/NewMaxLength/NewMinItems/NewMaxItems/NewPrecision hold exactly the written number "
@@ -60,12 +63,14 @@ CLAIMS = {
          "collectASTRules order.",
          "5 C04", "weakest-precondition VCs over go/ssa + SMT"),
  "C02": ("Run-time panic freedom (index, slice, nil dereference, type assertion, make size, nil-map write, integer wrap and conversion, negative Repeat) and "
-         "loop termination are proved for every function under a no_panic contract (C02 is the union of all of them, 180+ functions) and for the state methods of the enum "
-         "rule scanner: the entry points without recover - NewNumber, GuessSchemaType, json.Guess, the regex schema (Check/Len/Pattern/GetAST), the JSON document lexeme "
+         "loop termination are proved for every function under a no_panic contract (C02 is the union of all of them, 180+ functions), for the state methods of the enum "
+         "rule scanner and for the JSight schema scanner (all 62 state functions, the two closures installed after an inline annotation, Next up to the first step past the "
+         "end of the text, the event queue and stack, New: every read of the text is in range and every function value called is a known state whose precondition holds; "
+         "explicit error-valued panics are the scanner's error mechanism and are allowed exits): the entry points without recover - NewNumber, GuessSchemaType, json.Guess, the regex schema (Check/Len/Pattern/GetAST), the JSON document lexeme "
          "iterator (NextLexeme: every panic of the scanner is an error value and is returned) - are panic-free on every input (one recorded finding: exponent magnitude above "
          "2^40), plus the comparator, ParseUint/ParseInt, text positions, error rendering, the string decoder, the ordered maps, the constraint constructors and validators' "
-         "arithmetic, the pooled-buffer marshalers. Not decided: the schema scanner, loader, compiler, checker, OpenAPI conversion (not under contract), explicit error-valued "
-         "panics inside the enum rule scanner, recursion depth (stack overflow), memory exhaustion.",
+         "arithmetic, the pooled-buffer marshalers. Not decided: Scanner.Length() of the schema scanner (its bound needs the push-down discipline of the event stack), the loader, "
+         "compiler, checker and OpenAPI conversion (not under contract), explicit error-valued panics inside the two scanners, recursion depth (stack overflow), memory exhaustion.",
          "5 C02", "weakest-precondition VCs over go/ssa + SMT (safety obligations on every operation, decreases clauses)"),
  "C12": ("Partial. For the JSON document scanner every one of the 39 state functions is proved to implement exactly its row of a reference pushdown transducer "
          "written from the RFC 8259 grammar (tools/jsondoc_rows.py: for every byte class and, after a complete value, every shape of the event stack, the next state, "
@@ -129,7 +134,9 @@ CLAIMS = {
          "and is given the precondition that both constraints have the same mode; allOfConstraintCompiler.extendWith - verified under a partial-correctness contract, with "
          "everything it calls through the Node interface family treated as arbitrary - is proved to call it only on constraints of the same mode, so an object never inherits "
          "additionalProperties of a different mode silently (the original tree did: fixed); the deferred handlers CatchLexEventError / CatchLexEventErrorWithIncorrectUserType are "
-         "proved never to swallow a panic (whenever they recover a value they panic again), which is what lets extendWith's refusals reach Check(). Not decided: that the compiled "
+         "proved never to swallow a panic (whenever they recover a value they panic again), which is what lets extendWith's refusals reach Check(); ObjectNode.AddKey/AddChild "
+         "record a key with the position of the child it names (an inherited key never points at another property); extendWith shares no constraint object with the inherited type "
+         "except the additionalProperties rule (required keys are copied into a list of the object's own). Not decided: that the compiled "
          "object has exactly own ++ inherited properties with origin marks and required flags, duplicate property names, inheritance from non-object / missing types, cycles "
          "(processType bookkeeping), and what Example()/OpenAPI show.",
          "5 C07", "weakest-precondition VCs over go/ssa + SMT; partial-correctness contract with unmodelled callees as havoc; re-throw obligation for deferred handlers"),
@@ -138,14 +145,17 @@ CLAIMS = {
          "exactly as they found them on every return, error or not (so sibling properties and sibling alternatives of `@a | @b` are judged against the same chain; the original "
          "tree left a refused name on the chain: fixed); a type already on the chain makes checkType fail. Not decided: which links count (optional / nullable / array are skipped, "
          "`@a | @b` fails only if every alternative fails), that the walk follows every mandatory link with the right type table (the observed loss of the type table when descending "
-         "into a type, F17 in design-spikes, makes nested cycles go unreported and is not fixed: its repair breaks an existing test), no false alarms, termination of Example().",
+         "into a type, F17 in design-spikes, makes nested cycles go unreported and is not fixed: its repair breaks an existing test), no false alarms. Example(): a type is expanded only "
+         "while fewer than two expansions of it are open and the expansion is counted under the name the guard looked at (the per-call half of the termination argument); the object and "
+         "array builders never write a closing bracket after a separator nor a separator after an opening bracket or another separator (the original tree did: `{\"id\":1,}`, fixed); "
+         "not decided: termination as a whole-recursion theorem, that the pieces between separators are JSON.",
          "5 C06", "weakest-precondition VCs over go/ssa + SMT; partial-correctness contracts with the Node interface family as arbitrary callees"),
 }
 
 NOT_APPLICABLE = {
  "C03": "whole-pipeline language inclusion + round trip against an independent decoder: needs a verified reference grammar of the ~70-state schema scanner and the loader protocol; no per-function contract in reach states it (DESIGN.md I.6 and Part II section 6)",
  "C08": "instance validity of the example against the generated OpenAPI schema needs an independent JSON Schema validator as oracle and a relation between two whole-pipeline outputs; no per-function contract states it (DESIGN.md I.6 and Part II section 6); the pooled-buffer half of the marshalers is claimed under C10",
- "C15": "Len() is computed by the ~70-state schema scanner and the enum scanner, which are not under contract (only the JSON document scanner is, and its Len clause is listed as not covered under C12); the boundary/idempotence/trailer clauses relate two runs on different texts (2-safety)",
+ "C15": "Len() of a schema is Scanner.Length() of the 62-state schema scanner: its bound Len(S) <= len(S) needs the push-down discipline of the event stack at the end of the text (at most two closing events may follow the last byte), which the thin safety invariant now proved for that scanner (C02/C16) does not carry, and the coupled invariant over the states, the pending-event queue and three stacks was out of reach; for the JSON document scanner the bound is proved (under C12); the boundary/idempotence/trailer clauses relate two runs on different texts (2-safety)",
  "C11": "quantifies over goroutine interleavings; the verifier is sequential (mutexes/Once are no-ops in its model), no permission logic for threads (DESIGN.md I.6 and Part II section 6)",
  "C14": "2-safety relation between two complete pipeline runs on different texts; self-composition is feasible for a loop body, not for scanner+loader+compiler (DESIGN.md I.6 and Part II section 6)",
 }
